@@ -23,14 +23,27 @@ CHECKS = {
     "C05": dict(engine="E-HIST", cat="model_checking",
                 text="All cascades (histories) of Einsum events up to depth 2 (quick) / 3 (thorough) over a 16-19 event alphabet, each event with its own mapping and reading a declared input or any earlier output of the right shape; every transition compiles the extended cascade with the real HiFiber and checks prefix closure, equality with the stand-alone compilation up to temporaries, chained dense semantics on all presence patterns, and that all shared Tensor objects are back in their initial state.",
                 note=REF + "; histories bounded by depth", tech="exhaustive exploration of operation histories on the implementation with differential and reference-model oracles"),
+    "C06": dict(engine="E-SPEC", cat="exploration",
+                text="Every program of the compile-only corpus (union of the C01-C05 universes, C11/C16 universes when built, the repository's example specifications; plain, graphics and metrics mode) is parsed and analysed by a flow-sensitive definite-assignment analysis in which loops may run zero times, loop targets are local and lambdas are checked at their definition; the user-supplied name set is derived from the raw specification alone.",
+                note="static analysis oracle (mc/analysis/closure.py, self-tested by setup); corpus bounded as stated in the evidence", tech="bounded exhaustive enumeration of configurations; static definite-assignment oracle on every emitted program"),
     "C07": dict(engine="E-SPEC x E-DATA", cat="exploration",
                 text="A slice of the C01-C04 universes x all presence patterns of small extents; the oracle inspects the final global namespace of the reference-model run: every <Name>_<Ranks> variable's rank ids spell <Ranks>, each result is bound under its declared/rank-order name with integer in-extent coordinates, every input variable and input object is unchanged.",
                 note=REF + "; aliasing semantics of the model: setRankIds in place, fromFiber/getRoot alias, other transformations copy", tech="bounded exhaustive enumeration of configurations x inputs; namespace oracle"),
+    "C09": dict(engine="E-SPEC", cat="exploration",
+                text="(a) every program of the compile-only corpus: the HiFiber statement tree is converted structurally to a normal form and compared with Python's parse of the printed text (re-association of one associative operator, transparent parenthesis nodes, folded negative literals - nothing else); (b) every affine coordinate expression within the coefficient bound through CoordAccess.build_expr, tree vs text and numeric evaluation on [-2,2]^3.",
+                note="normal form as stated; corpus bounded as stated in the evidence", tech="bounded exhaustive enumeration; structural tree-vs-parse comparison"),
     "C13": dict(engine="E-HIST", cat="model_checking",
                 text="Every history of Einsum events (config x temporal prefix x functional-component binding set) up to depth 2 over the full alphabet and depth 3/4 over a 16-event alphabet is driven through the real Program/Hardware/Fusion objects; the blocks (and the metrics[\"blocks\"] literal of the emitted dump) are judged by an independent reference of the legality rules.",
                 note="bounded: histories up to the stated depth; space ranks a suffix of the loop order; functional component = FunctionalComponent subclasses",
                 tech="explicit-state exhaustive exploration of operation histories on the implementation"),
 }
+
+CHECKS["C18"] = dict(engine="E-SPEC", cat="exploration",
+                     text="For each of the 15 legality rules of the statement, every injection site in a 13-member legal base set (products, sums, take, index math, 1-3 level stacks, flatten tuples of 2-3 ranks, a two-Einsum metrics cascade); parsing + HiFiber(...) must raise ValueError and return no text; the bases themselves must compile.",
+                     note="injection sites bounded by the base set", tech="exhaustive fault/violation injection over a finite base set")
+CHECKS["C19"] = dict(engine="E-SPEC", cat="exploration",
+                     text="All templates (operand permutations, take first/last, affine accesses, terms listing contracted ranks in different orders) x partitionings without flatten x every subset of {rank-order, loop-order, partitioning} written explicitly vs omitted; the explicit default is computed from the structured specification by the rule of the statement; emitted texts must be identical.",
+                     note="templates and partitionings bounded as stated", tech="bounded exhaustive enumeration; differential text oracle with an independently computed default")
 
 ALL = ["C%02d" % i for i in range(1, 20)]
 
